@@ -6,6 +6,7 @@ use crate::gen::{self, rules};
 use crate::model::coerce::{self, Tri};
 use crate::runner::{Obs, Property, Sub};
 use proptest::prelude::*;
+use proptest::sample::select;
 use serde_json::{json, Value};
 
 const OPS: [&str; 4] = ["<", "<=", ">", ">="];
@@ -121,9 +122,27 @@ fn check_pair(case: &Value, obs: &mut Obs) -> Result<(), String> {
     rel_all_routes(a, b, want, obs).map(|_| ())
 }
 
+/// two strings with a common prefix whose first difference pits planes against each other (astral vs U+E000..FFFF is
+/// where UTF-16 order and code-point order disagree), also wrapped in arrays
+fn order_pairs() -> BoxedStrategy<(Value, Value)> {
+    let pool = vec!['a', 'z', '~', '\u{7F}', '\u{80}', 'é', '\u{7FF}', '\u{800}', '日', '\u{D7FF}', '\u{E000}', '\u{F600}', '\u{FF21}', '\u{FFFD}', '\u{FFFF}', '\u{10000}', '\u{10041}', '😀', '\u{10FFFF}'];
+    (gen::texts(3), select(pool.clone()), select(pool), gen::texts(2), gen::texts(2), 0u8..4)
+        .prop_map(|(prefix, x, y, ta, tb, wrap)| {
+            let a = format!("{}{}{}", prefix, x, ta);
+            let b = format!("{}{}{}", prefix, y, tb);
+            match wrap {
+                0 | 1 => (json!(a), json!(b)),
+                2 => (json!([a]), json!([b])),
+                _ => (json!(["a", a]), json!(["a", b])),
+            }
+        })
+        .boxed()
+}
+
 fn gen_pairs() -> BoxedStrategy<Value> {
     prop_oneof![
         4 => gen::related_pairs(),
+        1 => order_pairs(),
         1 => (gen::strings(), gen::strings()),
         1 => (gen::numbers(), gen::strings()),
         1 => (gen::num_strings().prop_map(gen::j), gen::num_strings().prop_map(gen::j)),
@@ -230,7 +249,7 @@ fn check_rules(case: &Value, obs: &mut Obs) -> Result<(), String> {
 }
 
 fn gen_rules() -> BoxedStrategy<Value> {
-    let cfg = rules::Cfg::new(&["<", "<=", ">", ">=", "<", "<=", ">", ">=", "cat", "merge", "if", "var", "+"]).leaf(gen::cmp_values()).poison(0).bad_arity(10);
+    let cfg = rules::Cfg::new(&["<", "<=", ">", ">=", "<", "<=", ">", ">=", "cat", "merge", "if", "var", "+", "!", "!!"]).leaf(gen::cmp_values()).poison(0).bad_arity(10);
     gen::case2(rules::rooted(cfg), gen::data_docs())
 }
 
